@@ -10,7 +10,7 @@ META = {
             "like a top-level function is not a call edge); Y1 every binary operator the parser accepts (infix_bp != None, except |>) has an operator kind in BinaryOp::op_details, "
             "and that kind reaches an arm of the inferencer that unifies the operands with each other and with the operand type Gleam "
             "prescribes, and yields Gleam's result type (Int/Float arithmetic, Int/Float comparison -> Bool, equality -> Bool, "
-            "boolean -> Bool, <> -> String). One obligation per operator token.",
+            "boolean -> Bool, <> -> String). One obligation per operator token. Y5 every arm of infer_pattern that says something about the matched value constrains the pattern's own type variable.",
     "explanation": "C09 as a whole quantifies over programs and feature interactions of a union-find unifier; no shape argument decides "
                    "it and this check does not pretend to. One clause is structural and necessary: an operator without a typing rule "
                    "leaves every expression using it (and everything bound to it) untyped. That clause is decided for all 22 operators.",
@@ -279,6 +279,7 @@ def run(F, res, tier):
                % (k, opnd or "of any one type", opnd if result == "same" else result),
                ok_operands and ok_opnd and ok_res, where=fn.loc(),
                how="kind %s; unify_var_ty calls %s; operands unified with each other: %s; arm yields %s" % (bk, tys, ok_operands, a["results"]))
+    pattern_types_pinned(F, res)
 
 
 def resolver_swaps(F, res, rule="Y4"):
@@ -352,3 +353,62 @@ def resolver_swaps(F, res, rule="Y4"):
                    how=("the previous resolver is not saved" if not mine else
                         "restoring writes: %d; a return is reachable without them: %s" % (len(back), leak)))
     res.floor("resolver swap-in sites in the inferencer", n, 5)
+
+
+def pattern_types_pinned(F, res, rule="Y5"):
+    """Y5: infer_pattern returns the type variable of the pattern (`pat_var`) and unifies it with what the context expects. Every
+    pattern form that says something about the matched value (all but a plain variable, `_` and a missing pattern) must
+    constrain that variable in its arm - by unifying it, or by handing it to a recursive call. An arm that only types its
+    sub-patterns leaves the subject unconstrained (`case s { "a" <> rest -> .. }` did not make `s` a String)."""
+    from rules.c05 import regions
+    f = F.fn("ide::ty::infer::InferCtx::infer_pattern")
+    d = FL.Defs(f)
+    PAT = "ide::def::module::Pattern"
+    dm = F.discr_map(PAT)
+    # pat_var = what is returned
+    ret = d.origin(0)
+    if ret.get("k") == "multi":
+        # several returns of the same local (an early `return pat_var` in one arm)
+        srcs = {op_local(x[3]["rv"].get("op", {})) for x in ret["defs"] if x[2] == "assign" and x[3]["rv"]["k"] == "use"}
+        ret = d.origin(srcs.pop()) if len(srcs) == 1 and None not in srcs else ret
+    pv_bb = ret.get("bb") if ret.get("k") == "call" else None
+    sw = None
+    for b in sorted(f.reachable()):
+        t = f.term(b)
+        if t["k"] != "switch":
+            continue
+        l = op_local(t["op"])
+        o = d.origin(l) if l is not None else {}
+        if o.get("k") == "rv" and o["rv"]["k"] == "discr" and o["rv"]["of"] == PAT:
+            sw = (b, t)
+            break
+    if sw is None or pv_bb is None:
+        res.anchor_missing(rule, "match on Pattern in infer_pattern / the returned type variable")
+        return
+    b0, t = sw
+    tg, reach = regions(f, t, avoid=b0)
+    n = 0
+    for v, x in sorted(tg.items()):
+        name = dm.get(v, str(v))
+        # blocks only this arm reaches (the join after the match belongs to every arm that falls through)
+        others = set()
+        for y, r in reach.items():
+            if y != x:
+                others |= r
+        arm = reach[x] - others
+        calls = [(b, tt) for b, tt in f.calls() if b in arm and (callee(tt) or "").startswith("ide::ty::infer::InferCtx::")]
+        if not calls:
+            continue      # Variable, Hole, Missing: nothing to say about the value
+        n += 1
+        pins = []
+        for b, tt in calls:
+            for a in tt["args"][1:]:
+                o = d.origin_op(a)
+                # the variable itself, or the expected type it is unified with after the match
+                if o.get("k") == "call" and o.get("bb") == pv_bb or o.get("k") == "arg" and o.get("n") == 3:
+                    pins.append(FL.short(callee(tt)))
+        res.ob(rule, "pattern/%s" % name, "the arm of infer_pattern for Pattern::%s constrains the pattern's own type variable (the one unified "
+               "with the subject)" % name, bool(pins), where=f.loc(f.term(x).get("ln") if f.term(x) else None),
+               how="constrained through %s" % sorted(set(pins)) if pins else "the arm types its parts only (%s); the returned variable stays free"
+               % sorted({FL.short(callee(tt)) for _, tt in calls}))
+    res.floor("pattern forms that constrain the matched value", n, 8)
